@@ -267,7 +267,7 @@ class Result:
 
 def run_fclones(rd, args, *, stdin=None, plan=None, now_ns=T0_NS, seed=1, cwd=None, env=None,
                 ro=None, roots_extra=(), on_hit=None, timeout=60.0, ficlone=True, labels=None,
-                threads_env=None, trace=True):
+                threads_env=None, trace=True, nofile=None):
     """Run the real binary under the seam.  args: list of str/bytes after the program name.
 
     on_hit(id) -> new now_ns or None: called at each rendezvous while fclones is stopped.
@@ -331,8 +331,14 @@ def run_fclones(rd, args, *, stdin=None, plan=None, now_ns=T0_NS, seed=1, cwd=No
     else:
         fin_obj = open(in_path, "rb")
     with fin_obj as fin, open(out_path, "wb") as fout, open(err_path, "wb") as ferr:
+        pre = None
+        if nofile is not None:
+            import resource
+
+            def pre():
+                resource.setrlimit(resource.RLIMIT_NOFILE, (nofile, nofile))
         p = subprocess.Popen(argv, stdin=fin, stdout=fout, stderr=ferr, env=e,
-                             cwd=cwd or rd.base, pass_fds=pass_fds, close_fds=True)
+                             cwd=cwd or rd.base, pass_fds=pass_fds, close_fds=True, preexec_fn=pre)
         if sock_child is not None:
             sock_child.close()
         if sock_parent is not None:
